@@ -28,6 +28,9 @@ ASSUMPTIONS = [
     "matched table: rows = the alignment's matches with both ids present, key (score onset, pitch) non-decreasing; "
     "the order of rows with equal key is free; columns onset/duration (beats, float32, 4 ulp), pitch, p_onset, "
     "p_duration (float32 of the performed note), velocity",
+    "'ordered by score onset then pitch': the pitch is the score note's pitch (the table's pitch column; decode_performance "
+    "pairs the rows with the score in that order); the performed pitch of a matched note is free (sub-spaces wrong-notes*: "
+    "matched wrong notes) and influences neither the order nor any decoded value",
     "get_matched_notes is compared as the sequence of (score row, performance row) index pairs of those matches",
     "time maps: at every matched score onset u with mean performed onset m (over the matched notes at u; with "
     "remove_ornaments=True over the matched notes with a score duration), s->p(u)=m and p->s(m)=u, and both maps are "
@@ -584,6 +587,91 @@ def gen_unison_forms():
     return gen
 
 
+def _onset_groups(sc):
+    """lists of note ids sharing a score onset (grace notes share the onset of their main note), in score-pitch order"""
+    g = {}
+    for n in sorted(sc["notes"], key=lambda n: (n[2], n[4], n[0])):
+        g.setdefault(n[2], []).append(n[0])
+    return [g[k] for k in sorted(g)]
+
+
+def _repitch(perf, newpitch):
+    """the performance with the performed pitch of the notes matched to the score ids in `newpitch` replaced"""
+    return [[r[0], int(newpitch.get(r[0][2:], r[1]))] + list(r[2:]) for r in perf]
+
+
+def pitch_maps(sc):
+    """(tag, {score id: performed pitch}) - matched wrong notes: the aligner pairs a score note with a performed note of
+    another pitch.  ALL non-identity permutations of the performed pitches inside one score onset; every single note
+    played just outside the score's range or at / one semitone around the pitch of another note of its onset; global
+    maps (transposition, inversion, one pitch for all)"""
+    pit = {n[0]: n[4] for n in sc["notes"]}
+    lo, hi = min(pit.values()), max(pit.values())
+    groups = _onset_groups(sc)
+    for g in groups:
+        for perm in itertools.permutations(range(len(g))):
+            if list(perm) == list(range(len(g))):
+                continue
+            yield "perm:%s:%s" % (g[0], "".join(map(str, perm))), {g[i]: pit[g[j]] for i, j in enumerate(perm)}
+    for g in groups:
+        for sid in g:
+            vals = [lo - 1, hi + 1]
+            for other in g:
+                if other != sid:
+                    vals += [pit[other] - 1, pit[other], pit[other] + 1]
+            seen = []
+            for v in vals:
+                if v != pit[sid] and v not in seen:
+                    seen.append(v)
+                    yield "one:%s=%d" % (sid, v), {sid: v}
+    yield "transpose+1", {k: v + 1 for k, v in pit.items()}
+    yield "transpose+12", {k: v + 12 for k, v in pit.items()}
+    yield "invert", {k: 127 - v for k, v in pit.items()}
+    yield "all-60", {k: 60 for k in pit}
+
+
+def gen_wrong_notes(scores):
+    def gen():
+        j = 0
+        for si, sc in enumerate(scores):
+            for pi, (bps, sp, st) in enumerate([((300000, 800000, 500000), 20000, "m"), ((500000, 300000), 0, "n")]):
+                for tag, mp in pitch_maps(sc):
+                    j += 1
+                    perf = _repitch(M.make_perf(sc, bps, sp, st, 3 + (j * 13) % 120, order=PORDERS[j % 3]), mp)
+                    yield dict(tag="wrong s%d p%d %s" % (si, pi, tag), score=sc, perf=perf,
+                               align=M.reorder(M.all_match(sc, perf), ORDERS[(j // 3) % 3]), form=FORMS[(j // 2) % 4])
+    return gen
+
+
+def group_maps(sc):
+    """performed pitches reversed / rotated by one inside EVERY score onset at once, and the inversion 127 - pitch"""
+    pit = {n[0]: n[4] for n in sc["notes"]}
+    groups = _onset_groups(sc)
+    yield "reverse-in-onsets", {g[i]: pit[g[len(g) - 1 - i]] for g in groups for i in range(len(g))}
+    if any(len(g) > 2 for g in groups):
+        yield "rotate-in-onsets", {g[i]: pit[g[(i + 1) % len(g)]] for g in groups for i in range(len(g))}
+    yield "invert", {k: 127 - v for k, v in pit.items()}
+
+
+def gen_wrong_notes_wide(max_notes):
+    """every score of the core family that has an onset with two or more notes x the maps of group_maps"""
+    def gen():
+        i = j = 0
+        for key in _structures(4, 3, V2_CORE, max_notes, skip=lambda k: not _core_key(k)):
+            i += 1
+            c = _case_from_structure(i, key)
+            if c is None or len(c["score"]["notes"]) > max_notes:
+                continue
+            sc = c["score"]
+            if all(len(g) < 2 for g in _onset_groups(sc)):
+                continue
+            for tag, mp in group_maps(sc):
+                j += 1
+                yield dict(tag="wrongw %d %s" % (i, tag), score=sc, perf=_repitch(c["perf"], mp), align=c["align"],
+                           form=FORMS[j % 4])
+    return gen
+
+
 FACTORS = [1, 480, 5040, 151200, "max"]
 FACTORS_THOROUGH = [1, 480, 5040, 2 ** 16 + 1, 151200, 2 ** 24 + 1, "max"]
 LEADS = [0, 1, 8, 70]
@@ -714,6 +802,24 @@ def spaces(tier, seed):
                     "pitch) with a written duration {shorter, equal, longer} x voice 2 added to the part {before, after} voice 1 x "
                     "{with, without} a fourth note x input form {Part, Score+Performance, [Part], note arrays} x 3 alignment "
                     "orders; meter, tempo pattern, chord spread, duration style and performance order cycled; all-match alignment"))
+    sp.append(Space("wrong-notes", gen_wrong_notes(rs), True,
+                    "matched wrong notes (the performed pitch of a matched note differs from the score pitch): 10 representative "
+                    "scores x 2 performances x {ALL non-identity permutations of the performed pitches inside one score onset "
+                    "(chords, voice 2, grace notes; up to 3 notes per onset); each single note played one semitone outside the "
+                    "score's pitch range or at / one semitone below / above the pitch of each other note of its onset; all notes "
+                    "transposed by +1 / +12; inverted (127 - pitch); all played as pitch 60}; all-match alignment; alignment "
+                    "order, performance order and input form cycled"))
+    WB = 3
+    if quick:
+        sp.append(Space("wrong-notes-wide-block", _block(gen_wrong_notes_wide(5), WB, seed % WB), True,
+                        "block %d of %d of: every score of structures-core with two or more notes on one onset x performed pitches "
+                        "{reversed inside every onset, rotated by one inside every onset (if an onset has 3+ notes), inverted "
+                        "127 - pitch}; performance and alignment as in structures-core, input form cycled" % (seed % WB, WB)))
+    else:
+        sp.append(Space("wrong-notes-wide", gen_wrong_notes_wide(5), True,
+                        "every score of structures-core with two or more notes on one onset x performed pitches {reversed inside "
+                        "every onset, rotated by one inside every onset (if an onset has 3+ notes), inverted 127 - pitch}; "
+                        "performance and alignment as in structures-core, input form cycled"))
     sp.append(Space("magnitude", gen_magnitude(rs, FACTORS if quick else FACTORS_THOROUGH, LEADS if quick else LEADS_THOROUGH,
                                                all_forms=not quick), True,
                     "10 representative scores x second copy of all notes {none, 1, 8, 70%s} measures later x divisions per grid "
